@@ -229,7 +229,7 @@ def worker(sh):
     else:
         ridx = sh.index - 8 if sh.quick else sh.index - 14
         # slot counts beyond every width a per-slot counter or bit mask could have (33, 65; thorough also 130 and 257)
-        l = ([1, 5, 8, 20, 2, 33, 65, 12] if sh.quick else [1, 5, 8, 20, 2, 33, 65, 12, 130, 257])[ridx % (8 if sh.quick else 10)]
+        l = ([1, 5, 8, 20, 257, 33, 65, 12] if sh.quick else [1, 5, 8, 20, 2, 33, 65, 12, 130, 257])[ridx % (8 if sh.quick else 10)]
         sig = rng.random() < 0.5
         sc.setup(0, l, sig)
         nh = sh.pick(6, 120)
@@ -273,7 +273,7 @@ def run(ctx):
     ctx.extra['exhaustive'] = True
     ctx.extra['exhaustive_scope'] = 'l=3 one-step transitions (values sampled from %s)' % [hex(v) for v in VALUES]
     ctx.assumptions = ['library pairing/group arithmetic used as instrument by the monitor (independently checked by C01-C08)', 'slot-pattern model in checks/wkd.py']
-    need = ['check:adjust|toggle-hide/same-id', 'check:adjust|toggle-unhide/same-id', 'check:qualify|', 'check:ndqualify|', 'check:keygen|', 'check:ndkeygen|', 'check:resample|', 'check:adjust|', 'setup|l3/sig1', 'setup|l3/sig0', 'setup|l20', 'setup|l33', 'setup|l65']
+    need = ['check:adjust|toggle-hide/same-id', 'check:adjust|toggle-unhide/same-id', 'check:qualify|', 'check:ndqualify|', 'check:keygen|', 'check:ndkeygen|', 'check:resample|', 'check:adjust|', 'setup|l3/sig1', 'setup|l3/sig0', 'setup|l20', 'setup|l33', 'setup|l65', 'setup|l257']
     for r in need:
         if not any(k.startswith(r) for k in ctx.classes):
             ctx.required_classes.add(r)
